@@ -1,5 +1,6 @@
 SPECIFICATION Spec
 CONSTANTS
+  SweepLens <- SweepThorough
   Big = TRUE
 INVARIANTS
   Emit
